@@ -387,83 +387,96 @@ inductive SRes
   | panic
 deriving Inhabited
 
-/-- Everything `Assignment.Evaluate` does once the right-hand side is evaluated (`rhs`), inside
-    its `recover()`: compound operators read the target first, then the target is written.
-    Errors of the right-hand side keep their own cited line; every other fault cites the
-    assignment. -/
+/-- the current value of the target of a compound assignment -/
+def assignCur (line : Nat) (var : String) (mapv : Option MapV) (e2 : Env) : Res Val :=
+  if var != "" then (match getValue e2 var with | .ok v => .ok v | .err _ => .err (some line) | .panic => .panic)
+  else match mapv with
+    | some m => (match evalMapV e2 m with | .ok v => .ok v | .err _ => .err (some line) | .panic => .panic)
+    | none => .ok .nil
+
+def AsOp.toAOp : AsOp → AOp | .add => .add | .sub => .sub | .mul => .mul | _ => .div
+
+/-- the value to store: `=` / `:=` the right-hand side, `+= -= *= /=` the target's current value
+    combined with it -/
+def assignNew (P : Params) (line : Nat) (var : String) (mapv : Option MapV) (aop : AsOp) (mv : Val) (e2 : Env) :
+    Res Val :=
+  match aop with
+  | .set => .ok mv
+  | op =>
+    match assignCur line var mapv e2 with
+    | .ok sv =>
+      (match P.arith op.toAOp sv mv with
+       | .ok v => .ok v | .err => .err (some line) | .panic => .panic)
+    | .err c => .err c
+    | .panic => .panic
+
+/-- the key of a map element, coerced to the map's key kind -/
+def mapKeyOf (line : Nat) (e2 : Env) (keyK : K) : Key → Res Val
+  | .var x => (match getValue e2 x with
+      | .ok kv => (match wanted keyK kv with | some w => .ok w | none => .panic)
+      | .err _ => .err (some line) | .panic => .panic)
+  | .str s => .ok (.s s)
+  | .int i => (match wanted keyK (.i .int64 i) with | some w => .ok w | none => .panic)
+
+/-- the index of a slice / array element -/
+def sliceIdxOf (line : Nat) (e2 : Env) (len : Nat) : Key → Res Nat
+  | .var x => (match getValue e2 x with
+      | .ok (.i _ i) => if i ≥ 0 && i.toInt.toNat < len then .ok i.toInt.toNat else .panic
+      | .ok _ => .panic | .err _ => .err (some line) | .panic => .panic)
+  | .str _ => .err (some line)
+  | .int i => if i ≥ 0 then (if i.toInt.toNat < len then .ok i.toInt.toNat else .panic) else .err (some line)
+
+/-- DataContext.SetMapVarValue -/
+def setMapVar (line : Nat) (e2 : Env) (m : MapV) (nv : Val) : Res Unit × Env :=
+  match getValue e2 m.name, e2.lookupBase m.name with
+  | .err _, _ => (.err (some line), e2)
+  | .panic, _ => (.panic, e2)
+  | .ok _, some (.map ptr keyK elemK entries) =>
+    (match mapKeyOf line e2 keyK m.key, wanted elemK nv with
+     | .ok k, some w =>
+       if k.kind != keyK || !assignable elemK w then (.panic, e2)
+       else
+         let entries' := if entries.any (fun p => valEq p.1 k)
+           then entries.map (fun p => if valEq p.1 k then (p.1, w) else p) else entries ++ [(k, w)]
+         (.ok (), e2.setBase m.name (.map ptr keyK elemK entries'))
+     | .ok _, none => (.panic, e2)
+     | .err c, _ => (.err c, e2)
+     | .panic, _ => (.panic, e2))
+  | .ok _, some (.slice ptr isArr elemK elems) =>
+    (match sliceIdxOf line e2 elems.length m.key, wanted elemK nv with
+     | .ok j, some w =>
+       if !assignable elemK w then (.panic, e2)
+       else if isArr && !ptr then (.panic, e2)    -- an array injected by value is not addressable
+       else (.ok (), e2.setBase m.name (.slice ptr isArr elemK (elems.set j w)))
+     | .ok _, none => (.panic, e2)
+     | .err c, _ => (.err c, e2)
+     | .panic, _ => (.panic, e2))
+  | .ok _, _ => (.err (some line), e2)
+
+/-- store into the named local / injected target, or into the element -/
+def assignStore (line : Nat) (var : String) (mapv : Option MapV) (e2 : Env) (nv : Val) : Res Unit × Env :=
+  if var != "" then
+    (match setValue e2 var nv with
+     | .ok e3 => (.ok (), e3) | .err _ => (.err (some line), e2) | .panic => (.panic, e2))
+  else match mapv with
+    | none => (.ok (), e2)
+    | some m => setMapVar line e2 m nv
+
+/-- Assignment.Evaluate after its right-hand side: `recover()` turns a panic into an error citing
+    the assignment's line; every error raised by the assignment itself cites that line. -/
 def assignCore (P : Params) (line : Nat) (var : String) (mapv : Option MapV) (aop : AsOp)
     (rhs : Res Val × Env) : Res Unit × Env :=
-  let cite := some line
   let recov : Res Unit × Env → Res Unit × Env := fun r => match r with
-    | (.panic, e) => (if P.assignRecover then .err cite else .panic, e) | o => o
+    | (.panic, e) => (if P.assignRecover then .err (some line) else .panic, e) | o => o
   recov <|
     match rhs with
     | (.err c, e2) => (.err c, e2)
     | (.panic, e2) => (.panic, e2)
     | (.ok mv, e2) =>
-        -- compound operators read the target first
-        let rv : Res Val := match aop with
-          | .set => .ok mv
-          | op =>
-            let cur : Res Val :=
-              if var != "" then (match getValue e2 var with | .ok v => .ok v | .err _ => .err cite | .panic => .panic)
-              else match mapv with
-                | some m => (match evalMapV e2 m with | .ok v => .ok v | .err _ => .err cite | .panic => .panic)
-                | none => .ok .nil
-            match cur with
-            | .ok sv =>
-              let o : AOp := match op with | .add => .add | .sub => .sub | .mul => .mul | _ => .div
-              (match P.arith o sv mv with
-               | .ok v => .ok v | .err => .err cite | .panic => .panic)
-            | .err c => .err c
-            | .panic => .panic
-        match rv with
-        | .err c => (.err c, e2)
-        | .panic => (.panic, e2)
-        | .ok nv =>
-          if var != "" then
-            (match setValue e2 var nv with
-             | .ok e3 => (.ok (), e3) | .err _ => (.err cite, e2) | .panic => (.panic, e2))
-          else match mapv with
-            | none => (.ok (), e2)
-            | some m =>
-              -- DataContext.SetMapVarValue
-              (match getValue e2 m.name, e2.lookupBase m.name with
-               | .err _, _ => (.err cite, e2)
-               | .panic, _ => (.panic, e2)
-               | .ok _, some (.map ptr keyK elemK entries) =>
-                 let key : Res Val := match m.key with
-                   | .var x => (match getValue e2 x with
-                       | .ok kv => (match wanted keyK kv with | some w => .ok w | none => .panic)
-                       | .err _ => .err cite | .panic => .panic)
-                   | .str s => .ok (.s s)
-                   | .int i => (match wanted keyK (.i .int64 i) with | some w => .ok w | none => .panic)
-                 (match key, wanted elemK nv with
-                  | .ok k, some w =>
-                    if k.kind != keyK || !assignable elemK w then (.panic, e2)
-                    else
-                      let entries' := if entries.any (fun p => valEq p.1 k)
-                        then entries.map (fun p => if valEq p.1 k then (p.1, w) else p) else entries ++ [(k, w)]
-                      (.ok (), e2.setBase m.name (.map ptr keyK elemK entries'))
-                  | .ok _, none => (.panic, e2)
-                  | .err c, _ => (.err c, e2)
-                  | .panic, _ => (.panic, e2))
-               | .ok _, some (.slice ptr isArr elemK elems) =>
-                 let idx : Res Nat := match m.key with
-                   | .var x => (match getValue e2 x with
-                       | .ok (.i _ i) => if i ≥ 0 && i.toInt.toNat < elems.length then .ok i.toInt.toNat else .panic
-                       | .ok _ => .panic | .err _ => .err cite | .panic => .panic)
-                   | .str _ => .err cite
-                   | .int i => if i ≥ 0 then (if i.toInt.toNat < elems.length then .ok i.toInt.toNat else .panic) else .err cite
-                 (match idx, wanted elemK nv with
-                  | .ok j, some w =>
-                    if !assignable elemK w then (.panic, e2)
-                    else if isArr && !ptr then (.panic, e2)    -- an array injected by value is not addressable
-                    else (.ok (), e2.setBase m.name (.slice ptr isArr elemK (elems.set j w)))
-                  | .ok _, none => (.panic, e2)
-                  | .err c, _ => (.err c, e2)
-                  | .panic, _ => (.panic, e2))
-               | .ok _, _ => (.err cite, e2))
+      match assignNew P line var mapv aop mv e2 with
+      | .err c => (.err c, e2)
+      | .panic => (.panic, e2)
+      | .ok nv => assignStore line var mapv e2 nv
 
 /-- The right-hand side: MathExpression first, then Expression (the later one wins). -/
 def assignRhs (P : Params) (env : Env) (math : OMath) (expr : OExpr) : Res Val × Env :=
